@@ -136,7 +136,6 @@ R["ibldsp.fourier.fshift"] = [
     ("V__ = numpy.invert(numpy.iscomplexobj(w))", {"V__": "do_fft"}),
     ("V__ = not numpy.iscomplexobj(w)", {"V__": "do_fft"}),
     ("V__ = scipy.fft.rfft(w, axis=axis)", {"V__": "W"}),
-    ("V__ = numpy.array(w.shape)", {"V__": "s_shape"}),
 ]
 R["ibldsp.fourier._freq_vector"] = [("V__ = fcn_cosine(b)(f)", {"V__": "filc"})]
 R["ibldsp.fourier._freq_filter"] = [("V__ = ts.shape[axis]", {"V__": "ns"})]
